@@ -600,16 +600,48 @@ def prove_equal(E, A, B, key, prop=False, timeout_ms=60000, info=None):
         return
     za, zb = [ZC.of(x) for x in a], [ZC.of(x) for x in b]
     if prop:
-        # all 2x2 minors vanish and both are non-zero
-        diffs = []
+        # A = lambda * B for one non-zero lambda.  Pivot encoding: if some
+        # entry B[k] is provably never zero, A = (A[k]/B[k]) B  <=>  all
+        # minors through column k vanish and A[k] != 0; otherwise all 2x2
+        # minors vanish and A vanishes exactly when B does.
+        links0, _ = c.link_constraints()
         n = len(za)
-        for i in range(n):
-            for j in range(i + 1, n):
-                l = za[i] * zb[j] - za[j] * zb[i]
-                diffs += [l.re != 0, l.im != 0]
         nz = lambda zs: z3.Or(*[z3.Or(z.re != 0, z.im != 0) for z in zs])
-        goal = z3.Or(z3.Or(*diffs) if diffs else z3.BoolVal(False),
-                     nz(za) != nz(zb))
+        pivot = None
+        for k in range(n):
+            bk = zb[k]
+            if z3.is_rational_value(bk.re) and z3.is_rational_value(bk.im):
+                if not (_is0(bk.re) and _is0(bk.im)):
+                    pivot = k
+                    break
+                continue
+        if pivot is None:
+            for k in range(min(n, 4)):
+                sp = z3.Solver()
+                sp.set('timeout', 3000)
+                sp.add(*c.cons)
+                sp.add(*links0)
+                sp.add(zb[k].re == 0, zb[k].im == 0)
+                E.stats.queries += 1
+                if sp.check() == z3.unsat:
+                    pivot = k
+                    break
+        diffs = []
+        if pivot is not None:
+            k = pivot
+            for j in range(n):
+                if j == k:
+                    continue
+                l = za[j] * zb[k] - za[k] * zb[j]
+                diffs += [l.re != 0, l.im != 0]
+            goal = z3.Or(z3.And(za[k].re == 0, za[k].im == 0), *diffs)
+        else:
+            for i in range(n):
+                for j in range(i + 1, n):
+                    l = za[i] * zb[j] - za[j] * zb[i]
+                    diffs += [l.re != 0, l.im != 0]
+            goal = z3.Or(z3.Or(*diffs) if diffs else z3.BoolVal(False),
+                         nz(za) != nz(zb))
     else:
         diffs = []
         eps = z3.RealVal('1/1000000000')
